@@ -265,10 +265,23 @@ func H_C06_append() {
 		vx.Assert("C06", err == nil, "append on a permissive log succeeds")
 		vx.Assert("C06", e.Verify(ids[0].Provider, io) == nil, "every entry produced by Append verifies")
 	}
+	// a second identity that carries the first one's provider (what decoding a stored entry with a loader's
+	// provider yields: jsonable.Identity.ToPlain(provider)); its appends are signed with its own key
+	idB := *ids[1]
+	idB.Provider = ids[0].Provider
+	B := newLogOpt(api, &idB, &ipfslog.LogOptions{ID: "X", IO: io})
+	eb, err := B.Append(ctx, []byte("b0"), nil)
+	vx.Assert("C06", err == nil && eb != nil, "append on a permissive log succeeds")
+	if err == nil {
+		vx.Assert("C06", eb.Verify(ids[0].Provider, io) == nil, "every entry produced by Append verifies (second identity through the same provider)")
+		W := newLogOpt(api, ids[0], &ipfslog.LogOptions{ID: "X", IO: io})
+		_, jerr := W.Join(B, -1)
+		vx.Assert("C06", jerr == nil && W.Len() == 1, "entries produced by Append merge into a permissive replica (second identity through the same provider)")
+	}
 	// a denying controller on a log with the same content
 	Dn := newLogOpt(api, ids[0], &ipfslog.LogOptions{ID: "X", IO: io, Entries: A.GetEntries(), AccessController: denyAll{}})
 	before := stateOf(Dn)
-	_, err := Dn.Append(ctx, []byte("nope"), nil)
+	_, err = Dn.Append(ctx, []byte("nope"), nil)
 	vx.Assert("C06", err != nil, "an append the controller denies returns an error")
 	after := stateOf(Dn)
 	vx.Assert("C06", sameSet(before.entries, after.entries) && sameSet(before.heads, after.heads) && sameSeq(before.values, after.values), "a denied append leaves entries and heads unchanged")
